@@ -10,6 +10,9 @@ R03.5 the aggregating SELECT has no row filter before GROUP BY (a WHERE would ma
       disappear; VTL returns one datapoint per group of the operand)
 R03.6 every aggregate operator of the grammar has an SQL template that is the SQL aggregate of the same name applied to the
       operand and nothing else
+R03.7 a grouping identifier that the SELECT list computes with an expression (time_agg over the time identifier) is grouped by
+      that same expression, in both aggregation paths (grouping by its output name would make DuckDB group by the SOURCE column
+      of that name: one group per original period, duplicate identifiers in the result)
 Not decided: the values DuckDB computes; null handling inside DuckDB's aggregates.
 """
 from __future__ import annotations
@@ -142,6 +145,53 @@ def run(rep: Report, tier: str) -> None:  # noqa: C901
         for sk in sqlx.iter_skeletons(P):
             if sk.func is f and any(t.up == "WHERE" for t in sqlx.tokenize(sk.text)) and any(t.up == "GROUP" for t in sqlx.tokenize(sk.text)):
                 rep.add(transp.fnd("R03.5", f"{f.name}/no-where", f, sk.line, "an aggregating SQL text of this function contains WHERE before GROUP BY"))
+
+    # ---- R03.7 computed grouping identifier: SELECT expression == GROUP BY expression ----
+    rep.rule("R03.7", "a computed grouping identifier is grouped by the expression the SELECT list computes it with")
+    gc = P.func(f"{TR}._build_agg_group_cols")
+    found = False
+    for n in walk_no_nested(gc.node):
+        if not isinstance(n, ast.If):
+            continue
+        sel_var = None
+        for st in n.body:
+            for c in ast.walk(st):
+                if isinstance(c, ast.Call) and isinstance(c.func, ast.Attribute) and c.func.attr == "append" and c.args and isinstance(c.args[0], ast.JoinedStr):
+                    js = c.args[0]
+                    if len(js.values) >= 2 and isinstance(js.values[0], ast.FormattedValue) and isinstance(js.values[1], ast.Constant) and str(js.values[1].value).startswith(" AS "):
+                        sel_var = src(js.values[0].value)
+        if sel_var is None:
+            continue
+        found = True
+        rep.instance("R03.7", "standalone/select-expr==group-expr", sample=sel_var)
+        grouped = any(isinstance(c, ast.Call) and isinstance(c.func, ast.Attribute) and c.func.attr == "append" and c.args and src(c.args[0]) == sel_var
+                      for st in n.body for c in ast.walk(st))
+        rets = [r for r in walk_no_nested(gc.node) if isinstance(r, ast.Return) and isinstance(r.value, ast.Tuple) and len(r.value.elts) == 2]
+        if not grouped or not rets:
+            rep.add(transp.fnd("R03.7", "standalone/select-expr==group-expr", gc, n.lineno,
+                               f"the SELECT list computes the grouping identifier as `{{{sel_var}}} AS <name>` but the GROUP BY list of the same branch does not receive `{sel_var}`: "
+                               f"grouping by the output name groups by the source column (DuckDB resolves the name to the input column before the alias), so "
+                               f"sum(DS group all time_agg(\"A\")) returns one datapoint per original period with duplicate identifiers"))
+    if not found:
+        raise AnalysisError("_build_agg_group_cols: computed select item (`<expr> AS <name>`) not found")
+    ac = P.func(f"{TR}.visit_RegularAggregation_aggr")
+    inner = {n.name: n for n in ast.walk(ac.node) if isinstance(n, ast.FunctionDef) and n is not ac.node}
+    rep.instance("R03.7", "aggr-clause/select-expr==group-expr")
+    if "_id_select_sql" not in inner or "_id_group_sql" not in inner:
+        raise AnalysisError("visit_RegularAggregation_aggr: _id_select_sql / _id_group_sql helpers not found")
+    sel_e = None
+    for r in ast.walk(inner["_id_select_sql"]):
+        if isinstance(r, ast.Return) and isinstance(r.value, ast.JoinedStr) and len(r.value.values) >= 2 and isinstance(r.value.values[0], ast.FormattedValue) \
+                and isinstance(r.value.values[1], ast.Constant) and str(r.value.values[1].value).startswith(" AS "):
+            sel_e = src(r.value.values[0].value)
+    grp_rets = {src(r.value) for r in ast.walk(inner["_id_group_sql"]) if isinstance(r, ast.Return) and r.value is not None}
+    if sel_e is None or sel_e not in grp_rets:
+        rep.add(transp.fnd("R03.7", "aggr-clause/select-expr==group-expr", ac, inner["_id_group_sql"].lineno,
+                           f"the aggr clause selects the computed grouping identifier as `{{{sel_e}}} AS <name>` but groups by {sorted(grp_rets)}"))
+    used_sel = any(isinstance(c, ast.Call) and src(c.func) == "_id_select_sql" for c in ast.walk(ac.node))
+    used_grp = any(isinstance(c, ast.Call) and src(c.func) == "_id_group_sql" for c in ast.walk(ac.node))
+    if not (used_sel and used_grp):
+        rep.add(transp.fnd("R03.7", "aggr-clause/helpers-used", ac, ac.node.lineno, "the select / group helpers for the computed identifier are not both used to build the query"))
 
     # ---- R03.6 templates ----
     sites = astctor.sites(P, G, set(NC))
